@@ -1524,8 +1524,9 @@ func extremeRef(vs []int64) [5]int64 {
 }
 
 func extremes(sk *sink, n int, only int) {
-	rnd := rand.New(rand.NewSource(cfg.seed))
 	for c := 0; c < n; c++ {
+		// one generator per case: a case re-executed alone (-only) sees exactly the same rows and node layout
+		rnd := rand.New(rand.NewSource(cfg.seed*1000003 + int64(c)))
 		nrows := 1 + rnd.Intn(7)
 		nshards := 1 + rnd.Intn(4)
 		var rows []row
@@ -1550,6 +1551,37 @@ func extremes(sk *sink, n int, only int) {
 		}
 		for s := 0; s < nshards; s++ {
 			a.shard(s)
+		}
+		// TOP / BOTTOM-N over the same values: the bounded heap must keep the N greatest / smallest (as a multiset)
+		for tn := 1; tn <= 3; tn++ {
+			for _, bottom := range []bool{false, true} {
+				q := lm.NewTopQueue[int64](tn, bottom)
+				for i, r := range rows {
+					q.Insert(lm.NewTopElement[int64](nil, r.v))
+					_ = i
+				}
+				var got []int64
+				for _, e := range q.Elements() {
+					got = append(got, e.Val())
+				}
+				want := append([]int64(nil), vals(rows)...)
+				sort.Slice(want, func(i, j int) bool {
+					if bottom {
+						return want[i] < want[j]
+					}
+					return want[i] > want[j]
+				})
+				if len(want) > tn {
+					want = want[:tn]
+				}
+				sort.Slice(got, func(i, j int) bool { return got[i] < got[j] })
+				ws := append([]int64(nil), want...)
+				sort.Slice(ws, func(i, j int) bool { return ws[i] < ws[j] })
+				sk.inc("extreme_topn")
+				if !eqInts(got, ws) {
+					sk.violate(c, 0, "extremes-top-queue", "values %v: TopQueue[int64](%d, bottom=%v) keeps %v, the %d extreme values are %v", vals(rows), tn, bottom, got, tn, ws)
+				}
+			}
 		}
 		var direct [5]int64
 		for f := 0; f < 5; f++ {
